@@ -56,7 +56,7 @@ CHECKS = {
          "Ladders, not all sizes; memtable 8 MiB in part A so single writes fit.", "4/C28"),
 
  "C12": ("exploration", "deterministic flush/compaction driver on production pickers + read-invariance oracle against the MVCC model after every step",
-         "No background compactors; PRNG-chosen sequences of commits, flushes, production-picker compactions (as compactor 0/1/2), forced level compactions, back-dated L0->L0, Lmax->Lmax rewrite, snapshots and SetDiscardTs over 6 option sets, normal and managed; after every flush/compaction all keys are read now, through every open snapshot and at sampled managed timestamps >= discardTs and compared with the model; targeted L0->L0 (older oversized table left out) and Lmax->Lmax (>10 MiB stale) families.",
+         "No background compactors; PRNG-chosen sequences of commits, flushes, production-picker compactions (as compactor 0/1/2), forced level compactions, back-dated L0->L0, Lmax->Lmax rewrite, snapshots and SetDiscardTs over 6 option sets, normal and managed; after every flush/compaction all keys are read now, through every open snapshot and at sampled managed timestamps >= discardTs and compared with the model; key-locality and pivot modes give L0 tables different, partly overlapping ranges; flush-held steps leave a rotated memtable unflushed during commits and reads; targeted L0->L0 (older oversized table left out), Lmax->Lmax (>10 MiB stale) and boundary-tombstone (level n table ending in the tombstone of a key whose older version starts a level n+1 table) families.",
          "Sequential driver (concurrent compactions covered by C01/C05 background histories); GC excluded (C15); table ages are back-dated through a verif-only export.", "4/C12"),
 
  "C13": ("exploration", "deterministic compaction driver + retention lower-bound oracle (MustRetain) over AllVersions scans; hook cross-check of the discard timestamp",
@@ -123,7 +123,7 @@ CHECKS = {
          "2-4 compactors, 16 KiB memtables, L0 stall at 2-3 tables; 6 committers (Commit/CommitWith), 3 readers/iterators, a WriteBatch flusher and a maintenance goroutine (RunValueLogGC, DropPrefix, DropAll, Flatten, Subscribe+cancel) run with delays at flush/compaction/drop points, then Close is called while committers keep committing; a call older than 45 s starts the analysis: unchanged blocked badger stacks and no completed call over 8 s = violation with the dump as witness, otherwise inconclusive; a panic inside badger raised by a public call is a violation.",
          "Liveness restated as bounded progress; readers are excluded while DropAll runs (documented precondition of DropAll); StreamWriter is exercised in C26.", "4/C38"),
  "C08": ("fault_enumeration", "crash injection: SIGKILL of a workload child at hook events (persistence events + schedule points) and strace-injected SIGKILL on syscall entry; side log of issue/ack/commit-ts; verifier child re-opens; commit-prefix/atomicity oracle + structure validator",
-         "Per configuration (deletes / GC loop / SyncWrites; plain, AES, compressed) a counting run records the hook-event sequence; children are killed at the first, last and random occurrences of every event class (file create/sync/truncate/rename/unlink/dir sync/MANIFEST append, commit, write, flush, compaction and GC phase points) and at uniformly random events, plus strace kills on entry to the N-th unlinkat/ftruncate/renameat/msync (multi-step file operations inside ristretto); after each kill a verifier child opens the directory twice: Open succeeds, every acknowledged commit is in the recovered set S, no logged commit timestamp below max(S) is missing, the state equals S applied in timestamp order (token, length, version), WriteBatch entries form a prefix and are complete when acknowledged, structure validator, new commit above every stored version.",
+         "Per configuration (deletes / GC loop / SyncWrites; plain, AES, compressed; one configuration runs the production MANIFEST rewrite every few ms through a verif export) a counting run records the hook-event sequence; children are killed at the first, last and random occurrences of every event class (file create/sync/truncate/rename/unlink/dir sync/MANIFEST append, commit, write, flush, compaction and GC phase points) and at uniformly random events, plus strace kills on entry to the N-th unlinkat/ftruncate/renameat/msync (multi-step file operations inside ristretto); after each kill a verifier child opens the directory twice: Open succeeds, every acknowledged commit is in the recovered set S, no logged commit timestamp below max(S) is missing, the state equals S applied in timestamp order (token, length, version), WriteBatch entries form a prefix and are complete when acknowledged, structure validator, new commit above every stored version.",
          "Page cache survives (process kill). Event numbering varies between runs of the concurrent workload: evidence counts the classes actually hit. Stratified sample of events in the quick tier, several hundred per configuration in the thorough tier, not every event of every trace.", "4/C08"),
  "C09": ("fault_enumeration", "fault injection on crash images: independent record parser + tail cutter (truncate / zero-fill) on the newest WAL, value log and MANIFEST; verifier child re-opens; exact recovered-set oracle",
          "Crash images of the C08 workload (killed without Close; killed right after a MANIFEST append; plain and AES); for every header and checksum byte, the edges and sampled interior offsets of keys and values of the last transactions of the newest WAL, the last records of the newest value log file and every byte of the last MANIFEST record, a truncated and a zero-filled copy is opened: Open succeeds; WAL: recovered set = undamaged set minus exactly the transactions whose end marker is not wholly before the cut, state = that set applied in order; value log: no read returns other bytes than the written value without an error (an empty value with nil error is accepted only for values whose record is damaged: badger's deliberate behaviour); MANIFEST: state unchanged.",
